@@ -17,7 +17,7 @@ Definition before (pi pj : epack) : Prop :=
 Definition nontick (e : emsg) : bool := negb (mkind_eqb (e_kind e) KTick).
 Definition times_agree (pk : epack) : Prop :=
   forall first rest, filter nontick (ep_msgs pk) = first :: rest ->
-    ep_begin pk = e_ts first /\ ep_end pk = e_ts (last rest first) /\ ep_end pk = last_ts pk /\ ep_endposts pk = ep_end pk.
+    ep_begin pk = e_ts first /\ ep_end pk = e_ts (last rest first) /\ ep_end pk <= last_ts pk /\ ep_endposts pk = ep_end pk.
 
 Definition chan_inv (s : st) (ch : string) : Prop :=
   let c := clock_of s ch in
@@ -115,7 +115,7 @@ Proof.
            ++ intros first rest Hf. rewrite Hfilter in Hf.
               assert (Hne : data <> []) by (rewrite Hf; discriminate).
               destruct (Hd Hne) as [Hb1 [He1 [He2 He3]]]. rewrite Hf in Hb1, He1. cbn [hd] in Hb1. rewrite last_cons_default in He1.
-              rewrite Hlast. repeat split; assumption.
+              rewrite Hlast. split; [exact Hb1|]. split; [exact He1|]. split; [rewrite He2; lia|exact He3].
       * apply sorted_snoc; [exact I3|]. rewrite Forall_forall in I2 |- *. intros p0 Hp0. destruct (I2 p0 Hp0) as [A _].
         split; [lia|]. intros d Hin Hk. destruct (Fd d (Hnt d Hin Hk)) as [B _]. lia.
   - specialize (Hoth ch' Hne). unfold chan_inv. rewrite Hoth.
